@@ -7,3 +7,4 @@ import FeedVerif.Model.OptionsDriver
 import FeedVerif.Props.C18
 import FeedVerif.Model.BaseDriver
 import FeedVerif.Props.C05
+import FeedVerif.Model.CssDriver
